@@ -365,7 +365,7 @@ def configs(tier):
             calls = 3 if procs == 1 else 1
             T = 40 if procs == 1 else 26  # >= procs * calls * longest path + 1 (asserted at run time)
             out.append({"name": f"{mode}|procs={procs}|crash={crash}|calls={calls}", "mode": mode, "procs": procs, "crash": crash, "calls": calls, "T": T, "config_timeout": 900,
-                        "pool": None if procs == 1 else ([0, 1, 4] if tier == "quick" else [0, 1, 2, 3, 4, 5, 6])})
+                        "pool": None if procs == 1 else ([0, 1, 4] if tier == "quick" else [0, 1, 4, 5, 6])})
     return out
 
 
@@ -381,7 +381,7 @@ def main():
         level="model_checking",
         functions=[perform_cached_doit, _cache.get_readable_hash, _cache._to_bytes, _cache._get_python_hash_seed],
         bounds={"calls": "<= 3 (one process, crash = the program is started again) / 1 per process (two processes; 2 calls each are not decided within 600 s)", "crashes": "<= 1, after any statement", "processes": "<= 2, statement-level interleaving",
-                "pool": "7 expressions (three str-colliding pairs incl. two closures of one factory + control); 3 of them with two processes in the quick tier, all 7 thorough", "seed modes": list(MODES), "unrolling": "40/26 steps; the check asserts that every bounded history fits (calls * program length <= T)"},  # fmt: skip
+                "pool": "7 expressions (three str-colliding pairs incl. two closures of one factory + control); 3 of them with two processes in the quick tier, 5 thorough", "seed modes": list(MODES), "unrolling": "40/26 steps; the check asserts that every bounded history fits (calls * program length <= T)"},  # fmt: skip
         assumptions=[
             "environment stubs: open(...,'wb') truncates -> partial; pickle.dump -> complete(value); pickle.load on a partial file raises; os.replace is atomic; mkdir/logging have no effect",
             "the key of an expression is what the real get_readable_hash returns in a fresh process under the seed mode (computed at check time)",
